@@ -21,6 +21,8 @@ from ..runner import Result, digest_of
 PROP = "C16"
 KEY = "k3y-Abc_123"
 SEC = "s3cr3t/+=x"
+KEYS = [KEY, "0ther-K3y_987"]
+SECS = [SEC, "an0ther/s3cr3t=+"]
 CALL = contextvars.ContextVar("sigsim_call", default=None)
 
 META = dict(
@@ -96,7 +98,12 @@ def run(tape, prop, tier):
     frag = tape.choice([0.0, 0.0, 0.5])
     net_seed = tape.subseed()
     salt = tape.draw(1000)
-    res.sample = dict(calls=[{k: c[k] for k in ("name", "coid", "start", "resp", "step")} for c in calls[:8]],
+    # a second account (other credentials) used from the same process: every third call goes through its clients
+    two_accounts = tape.chance(0.35)
+
+    def acct(i):
+        return 1 if (two_accounts and i % 3 == 2) else 0
+    res.sample = dict(two_accounts=two_accounts, calls=[{k: c[k] for k in ("name", "coid", "start", "resp", "step")} for c in calls[:8]],
                       token_bucket=tb_cfg if use_tb else None, connect_latency=conn_lat, fragmentation=frag)
     skew_tl = [(0.0, 0.0)]
     records = {}
@@ -160,8 +167,14 @@ def run(tape, prop, tier):
                                config_overrides={"api": {"http": {"base_url": "http://binance.sim/"}}})
             s = scli.APIClient(KEY, SEC, session=sess, tb=tb,
                                config_overrides={"api": {"http": {"base_url": "http://bitstamp.sim/"}}})
+            b_1 = bcli.APIClient(KEYS[1], SECS[1], session=sess, tb=tb,
+                                 config_overrides={"api": {"http": {"base_url": "http://binance.sim/"}}})
+            s_1 = scli.APIClient(KEYS[1], SECS[1], session=sess, tb=tb,
+                                 config_overrides={"api": {"http": {"base_url": "http://bitstamp.sim/"}}})
+            clients = [(b, s), (b_1, s_1)]
 
-            def make(c):
+            def make(c, who=0):
+                b, s = clients[who]
                 n = c["name"]
                 sym = SYMBOLS[c["sym"]]
                 d1, d2 = D(DECIMALS[c["d1"]]), D(DECIMALS[c["d2"]])
@@ -240,7 +253,7 @@ def run(tape, prop, tier):
                     res.probes["clock_step"] += 1
                 rec = records[i] = dict(t_start=loop.time(), name=c["name"])
                 try:
-                    await make(c)
+                    await make(c, acct(i))
                     rec["outcome"] = "ok"
                 except Exception as e_:
                     rec["outcome"] = type(e_).__name__
@@ -302,6 +315,9 @@ def run(tape, prop, tier):
             continue
         c = calls[cid]
         rec = records.get(cid, {})
+        key_, sec_ = KEYS[acct(cid)], SECS[acct(cid)]        # the credentials of the account that made this call
+        if acct(cid):
+            res.probes["second_account_request"] += 1
         for conn_id, raw in sorted(conns.items()):
             for (m, target, hdr, body) in parse_requests(raw):
                 res.stats["requests"] += 1
@@ -321,7 +337,7 @@ def run(tape, prop, tier):
                 if hdr.get("host") == "binance.sim":
                     signed = "signature=" in qs
                     needs_sig = not c["name"].endswith(("listen_key", "keep_alive"))
-                    if hdr.get("x-mbx-apikey") != KEY:
+                    if hdr.get("x-mbx-apikey") != key_:
                         V("api-key-missing", f"{m} {path}: X-MBX-APIKEY header is {hdr.get('x-mbx-apikey')!r}")
                     if needs_sig and not signed:
                         V("unsigned-request", f"{m} {path} sent without signature")
@@ -330,7 +346,7 @@ def run(tape, prop, tier):
                             pre, _, sig = qs.rpartition("&signature=")
                         else:
                             pre, sig = "", qs[len("signature="):]
-                        exp = hmac.new(SEC.encode(), pre.encode("latin-1") + body, hashlib.sha256).hexdigest()
+                        exp = hmac.new(sec_.encode(), pre.encode("latin-1") + body, hashlib.sha256).hexdigest()
                         if sig != exp:
                             bad = sorted({ch for ch in c["coid"] + c["coid2"] if ch in ":/@!$'()*,?"})
                             V("signature-mismatch", f"Binance {m} {target[:200]} body={body[:120]!r}: signature does not verify "
@@ -345,11 +361,11 @@ def run(tape, prop, tier):
                     if "x-auth" not in hdr:
                         V("unsigned-request", f"Bitstamp {m} {path} sent without X-Auth")
                         continue
-                    if hdr["x-auth"] != f"BITSTAMP {KEY}":
+                    if hdr["x-auth"] != f"BITSTAMP {key_}":
                         V("api-key-missing", f"Bitstamp X-Auth is {hdr['x-auth']!r}")
                     msg = (hdr["x-auth"] + m + hdr["host"] + path + qs + hdr.get("content-type", "") + hdr.get("x-auth-nonce", "") +
                            hdr.get("x-auth-timestamp", "") + hdr.get("x-auth-version", ""))
-                    exp = hmac.new(SEC.encode(), msg.encode("latin-1") + body, hashlib.sha256).hexdigest()
+                    exp = hmac.new(sec_.encode(), msg.encode("latin-1") + body, hashlib.sha256).hexdigest()
                     if hdr.get("x-auth-signature") != exp:
                         V("signature-mismatch", f"Bitstamp {m} {path} content-type={hdr.get('content-type')!r} body={body[:120]!r}: "
                                                 f"signature does not verify against the v2 message built from what was received",
